@@ -555,6 +555,28 @@ def coq_ident(s):
     return re.sub(r'\W', '_', s)
 
 
+def sf_literal(v, single):
+    """a finite Rust float literal of type f32 / f64 as a spec_float term (the value Rust parses it to)"""
+    import struct
+    if single:
+        v = struct.unpack('f', struct.pack('f', v))[0]
+    if v != v or v in (float('inf'), float('-inf')):
+        raise TranslationError('non-finite literal')
+    if v == 0.0:
+        return 'fzero'
+    m, e = abs(v).hex().split('p')           # 0x1.8p+1
+    ip, _, fp = m[2:].partition('.')
+    mant = int(ip + fp, 16)
+    ex = int(e) - 4 * len(fp)
+    prec = 24 if single else 53
+    # canonical mantissa of the format: exactly `prec` bits for normal numbers
+    while mant.bit_length() < prec and ex > (-149 if single else -1074):
+        mant *= 2; ex -= 1
+    while mant.bit_length() > prec and mant % 2 == 0:
+        mant //= 2; ex += 1
+    return '(S754_finite %s %d (%d))' % ('true' if v < 0 else 'false', mant, ex)
+
+
 def coq_str(s):
     s = s.replace('\\\\', '\\')
     return '"' + s.replace('"', '""') + '"'
@@ -579,6 +601,7 @@ class Impl:
         self.check_canonical = re.sub(r'\s+', '', self.check_src) == 'self.check_ref()?;Ok(self.0)'
         self.uses_fm = False
         self.deps = set()
+        self.reads = []          # top-level fields of the checked record the body of check_ref mentions
 
 
 class Translator:
@@ -767,11 +790,16 @@ class Translator:
                 im.uses_fm = True
                 return '(f_one fm)'
             return 'one64' if d == ('flt', '64') else 'one32'
-        raise TranslationError('float literal %s is outside the subset (only 0 and 1)' % val)
+        if d in (('flt', '64'), ('flt', '32')):
+            return sf_literal(v, d[1] == '32')
+        raise TranslationError('float literal %s on the generic float type is outside the subset (only 0 and 1)' % val)
 
     def field_of(self, im, crate, text, d, fname):
         if d[0] in ('rec', 'builder'):
             sname = d[1] if d[0] == 'rec' else self.w.builders[d[1]].record
+            if sname == getattr(im, 'record', None) and text in ('p', 'self'):
+                if fname not in im.reads:
+                    im.reads.append(fname)
             for fn, fd in self.records.get(sname, []):
                 if fn == fname:
                     return '(%s_%s %s)' % (coq_ident(sname), coq_ident(fn), text), fd
@@ -1115,6 +1143,8 @@ class Translator:
                 dd = db[1] if db[0] == 'self' else db
                 if dd[0] == 'rec':
                     fname = a[2] + '_compiles'
+                    if fname not in im.reads:
+                        im.reads.append(fname)
                     syn = self.synthetic.setdefault(dd[1], [])
                     if (fname, ('bool',)) not in syn:
                         syn.append((fname, ('bool',)))
@@ -1392,33 +1422,416 @@ def generate(repo):
     w('(* `check` is literally `self.check_ref()?; Ok(self.0)` *)')
     w('Definition check_is_check_ref_then_unwrap : list (string * bool) :=')
     w('  [%s].' % '; '.join('(%s, %s)' % (coq_str(im.target), 'true' if im.check_canonical else 'false') for im in order))
-    bf = blanket_facts(repo)
-    w('(* src/param_guard.rs: the blanket impls are `let checked = self.check_ref()?; checked.fit(dataset)` etc. *)')
-    w('Definition blanket_fit_calls_check_ref_first : bool := %s.' % ('true' if bf['Fit'] else 'false'))
-    w('Definition blanket_fit_with_calls_check_ref_first : bool := %s.' % ('true' if bf['FitWith'] else 'false'))
-    w('Definition blanket_transform_calls_check_ref_first : bool := %s.' % ('true' if bf['Transformer'] else 'false'))
-    eps = unchecked_entry_points(world, impls)
-    w('(* hand-written entry points on unchecked builders: (builder, method, body is `check_ref` then delegate) *)')
-    w('Definition explicit_unchecked_entry_points : list (string * string * bool) :=')
-    w('  [%s].' % '; '.join('(%s, %s, %s)' % (coq_str(b), coq_str(f), 'true' if c else 'false') for b, f, c, _ in eps))
-    return '\n'.join(out) + '\n', impls
+    emit_entry_points(world, impls, w)
+    struct_fields = {}
+    for im in impls:
+        st = im.crate.structs.get(im.record)
+        if st is not None and st['kind'] == 'named':
+            struct_fields[im.record] = [(fn, ft) for fn, ft in st['fields']]
+    fields_text = emit_fields(tr, world, order, struct_fields)
+    return '\n'.join(out) + '\n', fields_text, impls
+
+
+
+# --------------------------------------------------------------------------------------------
+# entry points: every impl of a training / transforming / predicting trait, and every method with a
+# `self` receiver of a type that has a ParamGuard impl
+
+EP_TRAITS = ('Fit', 'FitWith', 'Transformer', 'PredictInplace', 'Predict')
+
+
+def norm_macros(src):
+    """`[<Pls $name Params>]` -> PlsXParams everywhere (paste! identifiers)"""
+    return re.sub(r'\[<[^\]]*>\]', lambda m: norm_name(m.group(0)), src)
+
+
+def crate_roots(repo):
+    roots = []
+    if os.path.exists(os.path.join(repo, 'src', 'lib.rs')):
+        roots.append(repo)
+    for sub in ('algorithms', 'datasets'):
+        d = os.path.join(repo, sub)
+        if os.path.isdir(d):
+            if os.path.exists(os.path.join(d, 'src', 'lib.rs')):
+                roots.append(d)
+            for x in sorted(os.listdir(d)):
+                if os.path.exists(os.path.join(d, x, 'src', 'lib.rs')):
+                    roots.append(os.path.join(d, x))
+    return roots
+
+
+def impl_blocks(src):
+    """-> [(header text between `impl` and `{`, body text including braces)] of the item-level impls"""
+    res = []
+    for m in re.finditer(r'\bimpl\b', src):
+        j = m.start() - 1
+        while j >= 0 and src[j].isspace():
+            j -= 1
+        if j >= 0 and src[j] not in '};]{(' and not src[:j + 1].endswith('unsafe'):
+            continue
+        i, n, depth, ok = m.end(), len(src), 0, False
+        while i < n:
+            c = src[i]
+            if c == '<':
+                depth += 1
+            elif c == '>' and src[i - 1] not in '-=':
+                depth -= 1
+            elif c in '([':
+                try:
+                    i = match_close(src, i)
+                except TranslationError:
+                    break
+            elif c == '{' and depth <= 0:
+                ok = True
+                break
+            elif c in ';)}' :
+                break
+            i += 1
+        if not ok:
+            continue
+        try:
+            end = match_close(src, i)
+        except TranslationError:
+            continue
+        res.append((src[m.end():i], src[i:end + 1]))
+    return res
+
+
+def split_header(h):
+    """impl header -> (trait path or None, trait args text, receiver text, impl generic names)"""
+    h = h.strip()
+    gnames = []
+    if h.startswith('<'):
+        j = skip_generics(h, 0)
+        gnames = [nm for nm, _ in parse_generic_params(h[:j])]
+        h = h[j:].strip()
+    # top-level `for` (not `for<'a>` of a higher-ranked bound) and `where`
+    depth, pos_for, pos_where, i = 0, None, None, 0
+    while i < len(h):
+        c = h[i]
+        if c == '<':
+            depth += 1
+        elif c == '>' and h[i - 1] not in '-=':
+            depth -= 1
+        elif c in '([':
+            i = match_close(h, i)
+        elif depth == 0 and re.match(r'\bfor\b\s*[^<\s]', h[i:]) and (i == 0 or not (h[i - 1].isalnum() or h[i - 1] == '_')) and pos_for is None and pos_where is None:
+            pos_for = i
+        elif depth == 0 and re.match(r'\bwhere\b', h[i:]) and (i == 0 or not (h[i - 1].isalnum() or h[i - 1] == '_')) and pos_where is None:
+            pos_where = i
+        i += 1
+    body = h[:pos_where] if pos_where is not None else h
+    if pos_for is None:
+        return None, '', body.strip(), gnames
+    tr, recv = body[:pos_for].strip(), body[pos_for + 3:].strip()
+    m = re.match(r'(!?[\w:]+)\s*(<.*>)?\s*$', tr, re.S)
+    if not m:
+        return tr, '', recv, gnames
+    return m.group(1), (m.group(2) or ''), recv, gnames
+
+
+def type_base(t):
+    t = t.strip()
+    while t.startswith('&'):
+        t = re.sub(r"^&\s*('\w+\s*)?(mut\s+)?", '', t)
+    m = re.match(r'[\w:$]+', t)
+    return m.group(0).split('::')[-1] if m else t
+
+
+def squeeze(t):
+    return re.sub(r'\s+', '', t)
+
+
+def methods_of(block):
+    """methods with a self receiver of an impl block: [(name, self kind, [param names], first param type, return type, body)]"""
+    res = []
+    inner = block[1:-1]
+    for f in re.finditer(r'\bfn\s+(\w+)\s*', inner):
+        pre = inner[:f.start()]
+        if pre.count('{') != pre.count('}'):
+            continue                      # nested item
+        j = f.end()
+        if j < len(inner) and inner[j] == '<':
+            j = skip_generics(inner, j)
+        if not re.match(r'\s*\(', inner[j:]):
+            continue
+        a = inner.index('(', j)
+        b = match_close(inner, a)
+        params = split_top(inner[a + 1:b])
+        if not params:
+            continue
+        first = squeeze(params[0])
+        mm = re.fullmatch(r"(&('\w+)?(mut)?)?(mut)?self(:.*)?", first)
+        if not mm:
+            continue
+        kind = 'ref' if first.startswith('&') else 'value'
+        names, ptypes = [], []
+        for prm in params[1:]:
+            nm, _, ty = prm.partition(':')
+            names.append(re.sub(r'^mut\s+', '', nm.strip()))
+            ptypes.append(squeeze(ty))
+        k = b + 1
+        while k < len(inner) and inner[k] not in '{;':
+            k += 1
+        if k >= len(inner) or inner[k] == ';':
+            continue
+        ret = inner[b + 1:k]
+        ret = re.split(r'\bwhere\b', ret)[0]
+        ret = squeeze(ret[ret.index('->') + 2:]) if '->' in ret else ''
+        body = inner[k + 1:match_close(inner, k)]
+        res.append((f.group(1), kind, names, ptypes[0] if ptypes else '', ret, body))
+    return res
+
+
+def shape_of(body, names):
+    b = squeeze(body)
+    args = ','.join(names)
+
+    def same(a):
+        return squeeze(a).rstrip(',') == args
+    m = re.fullmatch(r'self\.check_ref\(\)\?\.(\w+)\((.*)\)', b)
+    if m and '(' not in m.group(2):
+        return ('EpTry', m.group(1), same(m.group(2)))
+    m = re.fullmatch(r'let(\w+)=self\.check_ref\(\)\?;\1\.(\w+)\((.*)\)', b)
+    if m and '(' not in m.group(3):
+        return ('EpTry', m.group(2), same(m.group(3)))
+    m = re.fullmatch(r'self\.check_ref\(\)\.map\(\|(\w+)\|\1\.(\w+)\((.*)\)\)', b)
+    if m and '(' not in m.group(3):
+        return ('EpMap', m.group(2), same(m.group(3)))
+    m = re.fullmatch(r'self\.check_ref\(\)\.and_then\(\|(\w+)\|\1\.(\w+)\((.*)\)\)', b)
+    if m and '(' not in m.group(3):
+        return ('EpAndThen', m.group(2), same(m.group(3)))
+    if re.fullmatch(r'&?self\.0(\.\w+)+(\.clone\(\))?', b):
+        return ('EpGetter',)
+    return ('EpOpaque', b[:160])
+
+
+def scan_entry_points(world, impls):
+    """-> (entries, transform_guard types)"""
+    builders = set(im.target for im in impls)
+    checked_of = {}
+    for im in impls:
+        checked_of.setdefault(im.checked, im.target)
+    for im in impls:
+        checked_of.setdefault(im.record, im.target)
+    aliases = {}
+    sources = []
+    for root in crate_roots(world.repo):
+        for path in sorted(module_files(root)):
+            src = norm_macros(strip_comments(open(path, encoding='utf8', errors='replace').read()))
+            sources.append((path, src))
+            for m in re.finditer(r'\btype\s+(\w+)\s*(<[^=;{]*>)?\s*=\s*([\w:]+)', src):
+                if m.group(1) not in ('Checked', 'Error', 'Object', 'ObjectIn', 'ObjectOut', 'Result'):
+                    aliases[m.group(1)] = m.group(3).split('::')[-1]
+
+    def resolve(n):
+        seen = set()
+        while n in aliases and n not in seen:
+            seen.add(n); n = aliases[n]
+        return n
+    entries, tguards = [], []
+    for path, src in sources:
+        rel = os.path.relpath(path, world.repo)
+        for header, block in impl_blocks(src):
+            try:
+                tr, targs, recv, gnames = split_header(header)
+            except TranslationError:
+                continue
+            tname = tr.split('::')[-1] if tr else None
+            rbase = resolve(type_base(recv))
+            if tname == 'TransformGuard':
+                tguards.append(rbase)
+                continue
+            if tr is not None and tname not in EP_TRAITS:
+                continue
+            if rbase in builders:
+                cls, builder = 'EpUnchecked', rbase
+            elif rbase in checked_of:
+                cls, builder = 'EpChecked', checked_of[rbase]
+            elif rel == os.path.join('src', 'param_guard.rs') and rbase in gnames:
+                cls, builder = 'EpBlanket', ''
+            else:
+                cls, builder = 'EpOther', ''
+            if tr is None and cls != 'EpUnchecked':
+                continue
+            fns = []
+            targl = [a for a in split_top(targs.strip()[1:-1]) if not a.strip().startswith("'")] if targs.strip() else []
+            records = squeeze(targl[0]) if targl else ''
+            if cls in ('EpUnchecked', 'EpBlanket'):
+                for name, kind, names, ptype, ret, body in methods_of(block):
+                    if tr is None:
+                        if name in ('check', 'check_ref', 'check_unwrap'):
+                            continue
+                        if kind == 'value' and re.fullmatch(r'Self|' + re.escape(type_base(recv)) + r'(<.*>)?', ret):
+                            continue          # a setter of the builder
+                    fns.append((name, shape_of(body, names), ptype))
+                if tr is None and not fns:
+                    continue
+            if tr is None:
+                # one entry per method (the key of an inherent method is its first parameter's type)
+                for name, shp, ptype in fns:
+                    entries.append(dict(file=rel, trait='', recv=rbase, cls=cls, builder=builder, records=ptype, fns=[(name, shp)]))
+            else:
+                entries.append(dict(file=rel, trait=tname, recv=rbase, cls=cls, builder=builder, records=records,
+                                    fns=[(n, sh) for n, sh, _ in fns]))
+    return entries, sorted(set(tguards))
+
+
+def coq_shape(sh):
+    if sh[0] == 'EpGetter':
+        return 'EpGetter'
+    if sh[0] == 'EpOpaque':
+        return '(EpOpaque %s)' % coq_str(sh[1])
+    return '(%s %s %s)' % (sh[0], coq_str(sh[1]), 'true' if sh[2] else 'false')
+
+
+def emit_entry_points(world, impls, w):
+    entries, tguards = scan_entry_points(world, impls)
+    w('(** entry points (see C04/Model.v): every impl of Fit / FitWith / Transformer / PredictInplace / Predict in the')
+    w('    workspace with the class of its receiver, and every self-method of a type with a ParamGuard impl *)')
+    w('Definition entry_points : list entry_point :=')
+    lines = []
+    for e in entries:
+        lines.append('   {| ep_file := %s; ep_trait := %s; ep_recv := %s; ep_cls := %s; ep_builder := %s; ep_records := %s;\n      ep_fns := [%s] |}' % (
+            coq_str(e['file']), coq_str(e['trait']), coq_str(e['recv']), e['cls'], coq_str(e['builder']), coq_str(e['records']),
+            '; '.join('(%s, %s)' % (coq_str(n), coq_shape(sh)) for n, sh in e['fns'])))
+    w('  [' + ';\n'.join(lines).lstrip() + '].')
+    w('')
+    w('(* `impl TransformGuard for X`: the blanket Transformer impl of src/param_guard.rs applies to X *)')
+    w('Definition transform_guard_impls : list string := [%s].' % '; '.join(coq_str(t) for t in tguards))
+    w('')
+    return entries
+
+
+# --------------------------------------------------------------------------------------------
+# parameter records as data (gen/C04_fields.v)
+
+def desc_numeric(tr, d):
+    k = d[0]
+    if k in ('flt', 'nat'):
+        return True
+    if k in ('opt', 'list'):
+        return desc_numeric(tr, d[1])
+    if k == 'tup':
+        return any(desc_numeric(tr, x) for x in d[1])
+    if k == 'rec':
+        return any(desc_numeric(tr, fd) for _, fd in tr.records[d[1]])
+    if k == 'builder':
+        return any(desc_numeric(tr, fd) for _, fd in tr.records[tr.w.builders[d[1]].record])
+    if k == 'enum':
+        return any(desc_numeric(tr, ad) for _, cargs in tr.enums_out[d[1]] for _, ad in cargs)
+    return False
+
+
+def float_leaves(tr, d, expr, path, ctr):
+    """-> [(path, Coq term of type list spec_float)] for every float inside a value `expr` of descriptor d"""
+    k = d[0]
+    if k == 'flt':
+        return [(path, '[%s]' % expr)]
+    if k == 'list' and d[1][0] == 'flt':
+        return [(path + '.*', expr)]
+    if k == 'opt':
+        ctr[0] += 1
+        v = 'o%d' % ctr[0]
+        return [(pth, '(match %s with Some %s => %s | None => [] end)' % (expr, v, g)) for pth, g in float_leaves(tr, d[1], v, path, ctr)]
+    if k == 'tup' and len(d[1]) == 2:
+        return (float_leaves(tr, d[1][0], '(fst %s)' % expr, path + '.0', ctr)
+                + float_leaves(tr, d[1][1], '(snd %s)' % expr, path + '.1', ctr))
+    if k in ('rec', 'builder'):
+        sname = d[1] if k == 'rec' else tr.w.builders[d[1]].record
+        out = []
+        for fn, fd in tr.records[sname]:
+            out += float_leaves(tr, fd, '(%s_%s %s)' % (coq_ident(sname), coq_ident(fn), expr), path + '.' + fn, ctr)
+        return out
+    if k == 'enum':
+        out = []
+        for cn, cargs in tr.enums_out[d[1]]:
+            if len(cargs) != 1:
+                continue
+            ctr[0] += 1
+            v = 'c%d' % ctr[0]
+            for pth, g in float_leaves(tr, cargs[0][1], v, path + '.' + cn, ctr):
+                out.append((pth, '(match %s with %s_%s %s => %s | _ => [] end)' % (expr, coq_ident(d[1]), cn, v, g)))
+        return out
+    return []
+
+
+def emit_fields(tr, world, order, struct_fields):
+    out = []
+    w = out.append
+    w('(** GENERATED by tools/c04_guard2coq.py from the Rust sources - do not edit.')
+    w('    The checked parameter structs as data: per field a setter and a decoder, per float inside a field a getter,')
+    w('    the fields whose type is outside the translated subset, the fields `check_ref` mentions; one [guard_pack]')
+    w('    per `impl ParamGuard`. *)')
+    w('From Coq Require Import List NArith ZArith Bool String SpecFloat.')
+    w('From LinfaVerif Require Import C04.Model gen.C04_guards.')
+    w('Import ListNotations.')
+    w('Open Scope string_scope.')
+    w('')
+    done = set()
+    for im in order:
+        R = im.record
+        if R in done:
+            continue
+        done.add(R)
+        cn = coq_ident(R)
+        fl = tr.records[R]
+        for fn, d in fl:
+            w('Definition set_%s_%s (v : %s) (p : r_%s) : r_%s :=' % (cn, coq_ident(fn), tr.coq_type(d), cn, cn))
+            w('  {| ' + '; '.join('%s_%s := %s' % (cn, coq_ident(g), 'v' if g == fn else '%s_%s p' % (cn, coq_ident(g))) for g, _ in fl) + ' |}.')
+        rust_types = dict(struct_fields.get(R, []))
+        w('Definition fields_%s : list (field_desc r_%s) :=' % (cn, cn))
+        w('  [' + ';\n   '.join('Build_field_desc r_%s %s %s %s (%s) set_%s_%s %s' % (
+            cn, coq_str(fn), coq_str(squeeze(rust_types.get(fn, '(derived by the translator)'))), 'true' if desc_numeric(tr, d) else 'false',
+            tr.coq_type(d), cn, coq_ident(fn), tr.decoder(d)) for fn, d in fl) + '].')
+        ctr = [0]
+        leaves = []
+        for fn, d in fl:
+            leaves += float_leaves(tr, d, '(%s_%s p)' % (cn, coq_ident(fn)), fn, ctr)
+        w('Definition leaves_%s : list (string * (r_%s -> list spec_float)) :=' % (cn, cn))
+        w('  [' + ';\n   '.join('(%s, fun p => %s)' % (coq_str(pth), g) for pth, g in leaves) + '].')
+        translated = set(fn for fn, _ in fl)
+        unt = [(fn, ft) for fn, ft in struct_fields.get(R, []) if fn not in translated]
+        w('Definition untranslated_%s : list (string * string) :=' % cn)
+        w('  [' + '; '.join('(%s, %s)' % (coq_str(fn), coq_str(squeeze(ft))) for fn, ft in unt) + '].')
+        w('')
+    for im in order:
+        cn, bn = coq_ident(im.record), coq_ident(im.target)
+        w('Definition pack_%s : guard_pack :=' % bn)
+        w('  {| gp_builder := %s; gp_P := r_%s; gp_guard := check_ref_%s; gp_of_env := of_env_%s;' % (coq_str(im.target), cn, bn, cn))
+        w('     gp_fields := fields_%s; gp_leaves := leaves_%s; gp_untranslated := untranslated_%s;' % (cn, cn, cn))
+        w('     gp_reads := [%s] |}.' % '; '.join(coq_str(r) for r in im.reads))
+    w('')
+    w('Definition guard_packs : list guard_pack := [%s].' % '; '.join('pack_' + coq_ident(im.target) for im in order))
+    w('')
+    w('#[export] Hint Unfold %s : c04_guards.' % ' '.join('check_ref_' + coq_ident(im.target) for im in order))
+    return '\n'.join(out) + '\n'
+
+
+def write_if_changed(path, text):
+    os.makedirs(os.path.dirname(os.path.abspath(path)), exist_ok=True)
+    old = open(path, encoding='utf8').read() if os.path.exists(path) else None
+    if old != text:
+        open(path, 'w', encoding='utf8').write(text)
+    return old != text
 
 
 def main():
     ap = argparse.ArgumentParser()
     ap.add_argument('--repo', default='/repo')
     ap.add_argument('--out', required=True)
+    ap.add_argument('--out-fields', default=None)
     a = ap.parse_args()
     try:
-        text, impls = generate(a.repo)
+        text, fields_text, impls = generate(a.repo)
     except TranslationError as e:
         print('guard2coq: TRANSLATION FAILURE (the guard definitions were not regenerated): %s' % e)
         return 1
-    os.makedirs(os.path.dirname(os.path.abspath(a.out)), exist_ok=True)
-    old = open(a.out, encoding='utf8').read() if os.path.exists(a.out) else None
-    if old != text:
-        open(a.out, 'w', encoding='utf8').write(text)
-    print('guard2coq: %d ParamGuard impls translated -> %s%s' % (len(impls), a.out, '' if old != text else ' (unchanged)'))
+    ch = write_if_changed(a.out, text)
+    fout = a.out_fields or os.path.join(os.path.dirname(os.path.abspath(a.out)), 'C04_fields.v')
+    ch2 = write_if_changed(fout, fields_text)
+    print('guard2coq: %d ParamGuard impls translated -> %s%s, %s%s' % (
+        len(impls), a.out, '' if ch else ' (unchanged)', fout, '' if ch2 else ' (unchanged)'))
     return 0
 
 
